@@ -872,6 +872,11 @@ class OptionalSerializer(Generic[T, T_NP], TypeSerializer[Optional[T], np.void])
         self._none = cast(np.void, np.zeros((), dtype=self.overall_dtype())[()])
 
     def write(self, stream: CodedOutputStream, value: Optional[T]) -> None:
+        if isinstance(value, np.void):
+            # the field of a structured array element holds (has_value, value)
+            self.write_numpy(stream, value)
+            return
+
         stream.ensure_capacity(1)
         if value is None:
             stream.write_byte_no_check(0)
